@@ -95,7 +95,10 @@ class C02(Prop):
         # the step with index k (0-based among steps) lands on the (k+1)-th timestep of the episode
         ep_times = [us(ro["now"])] + [us(o["now"]) for o in steps if o["status"].startswith("ok") and o["now"] is not None]
         k = min(case["cut"], len(ep_times) - 1)
-        t = ep_times[k]
+        # the cut is the k-th timestep of the episode *as given in the input* (bar-shaped streams: every grid point bears
+        # a quote, the episode starts at the first one) - not the clock the implementation reports, which a defect
+        # could have moved
+        t = grid[k] if k < len(grid) else ep_times[k]
         lat = case.get("latency", 0)
         # twin 1: everything after t re-drawn
         r2 = ImplRun()
